@@ -14,7 +14,7 @@ import json
 import lib, pipes, execcorr as X, semstrict as SS
 from props.C01 import load_cases
 
-N = {"quick": 90, "thorough": 1200}
+N = {"quick": 90, "thorough": 700}
 VARIANTS = [("pgtext", "postgres", None),
             ("pgtext_cte_elim", "postgres", {"use_cte_elim": True}),
             ("pgtext_no_with", "postgres", {"use_with": False})]
